@@ -783,6 +783,13 @@ class Node:
                 f"({new_parent})"
             )
 
+        # Validate `before` first: we must not detach the node and fail then
+        if isinstance(before, Node) and before._parent is not new_parent:
+            raise ValueError(
+                f"`before=node` ({before._parent}) "
+                f"must be a child of target node ({new_parent})"
+            )
+
         self._parent._children.pop(self._get_sibling_index())  # type: ignore
         if not self._parent._children:  # store None instead of `[]`
             self._parent._children = None
